@@ -6,7 +6,8 @@ position (every truncation, header octets -> {00,7F,80,FF}, every bit of the
 first 11 octets, all version nibbles, argument -> {-1, 20 digits, abc, empty,
 1.5, 0x10, full-width digits, non-UTF-8}, dropped/extra argument, NUL variants,
 case), the mutant is injected through the real main loop and the rest of the
-session is replayed.  Oracle: no exception leaves the main loop / handlers;
+session is replayed; argument faults are additionally sent *in place of* the valid
+command, so that a hostile numeric value is still in force when traffic follows.  Oracle: no exception leaves the main loop / handlers;
 a datagram the reference does not accept changes nothing and emits nothing;
 a clearly malformed command is ignored or answered with a non-zero status and
 changes nothing; the remainder of the session behaves exactly as the reference
